@@ -55,6 +55,7 @@ impl<'a, 'b> InterpStack<'a, 'b> {
                         // (a match arm, `||`, a list that is only measured)
                         // turns the missing value into a constant.
                         if crate::utils::clock::folding_constants() {
+                            crate::utils::clock::note_runtime_input();
                             return Err(CelError::binding(&name));
                         }
 
@@ -383,6 +384,7 @@ impl<'a> Interpreter<'a> {
                                     Err(_) => {
                                         // may be a function bound at run time
                                         if crate::utils::clock::folding_constants() {
+                                            crate::utils::clock::note_runtime_input();
                                             return Err(CelError::attribute("obj", ident.as_str()));
                                         }
 
@@ -426,6 +428,7 @@ impl<'a> Interpreter<'a> {
                                     } else {
                                         // may be a function bound at run time
                                         if crate::utils::clock::folding_constants() {
+                                            crate::utils::clock::note_runtime_input();
                                             return Err(CelError::attribute("obj", ident.as_str()));
                                         }
 
@@ -505,6 +508,7 @@ impl<'a> Interpreter<'a> {
                                         // functions): a name it cannot call is a
                                         // run-time input, so the folding stops.
                                         if crate::utils::clock::folding_constants() {
+                                            crate::utils::clock::note_runtime_input();
                                             return Err(CelError::runtime(&format!(
                                                 "{} is not callable",
                                                 func_name
